@@ -80,13 +80,21 @@ theorem results_eq_spec (f : Function) :
 /-! ## names, pointer-ness and qualified types are those of the method (`createVar`) -/
 
 /-- declared names win, defaults `src`/`dst` (swapped under `:reverse`) and `arg<i>` otherwise -/
-theorem createVar_name (env : Env) (v : ParamVar) (d : String) (r : Var) (h : createVar env v d = .ok r) :
-    r.name = (if v.name == "" then d else v.name) ∧ r.pointer = env.isPtr v.ty := by
-  unfold createVar at h
-  cases htn : env.typeNameF (env.derefPtr v.ty) <;> cases hext : env.isExternal (env.derefPtr v.ty) <;>
-    simp [htn, hext] at h
-  cases h
-  simp
+theorem createVar_name (env : Env) (v : ParamVar) (d : String) :
+    (createVar env v d).name = (if v.name == "" then d else v.name) ∧
+    (createVar env v d).pointer = env.isPtr v.ty ∧
+    (createVar env v d).typ = env.typeNameF (env.derefPtr v.ty) := ⟨rfl, rfl, rfl⟩
+
+/-- the type text is the package-qualified name of the operand type: the import's name in the setup
+file for an imported named type, the bare name for a local one -/
+theorem typeName_named (env : Env) (fuel : Nat) (t : TyId) (hk : env.kind t = .named) (p : String)
+    (hp : (env.ty t).pkgPath = some p) :
+    env.typeName (fuel + 1) t =
+      (match env.importName p with
+       | some n => n ++ "." ++ (env.ty t).name
+       | none => (env.ty t).name) := by
+  simp only [Env.typeName, hk, hp]
+  cases env.importName p <;> rfl
 
 /-- illegal: `:reverse` together with additional arguments is rejected before anything is built -/
 theorem reverse_with_args_rejected (env : Env) (eng : Engine) (m : MethodEntry)
